@@ -293,45 +293,23 @@ compare_images(const char* what, const std::vector<double>& got, const std::vect
 }
 
 Result
-check(const json& c)
+check(const json& c_in)
 {
   Fixture F;
   TmpDir tmp("c07");
-  shared_ptr<ProjMatrixByBinUsingRayTracing> symm_matrix;
-  try
-    {
-      build_geometry(F, c, MAX_Z);
-      canonicalise_grid_through_file(F, tmp.path);
-      symm_matrix = make_case_matrix(F.mopts, F.sym, 0);
-      symm_matrix->set_up(F.pdi, F.image);
-      DataOpts dopt;
-      dopt.start_zero_fraction = c["start_zeros"].get<bool>() ? 0.15 : 0.;
-      build_data(F, c, *symm_matrix->get_symmetries_ptr(), dopt);
-    }
-  catch (const stir_verif::AssertionFailure&)
-    {
-      throw;
-    }
-  catch (const std::exception& e)
-    {
-      return Result::reject(std::string("geometry rejected: ") + e.what());
-    }
+  json c;
+  std::string proj_note; // triage aid (not an oracle of this property), see prepare_fixture
+  {
+    DataOpts dopt;
+    dopt.start_zero_fraction = c_in["start_zeros"].get<bool>() ? 0.15 : 0.;
+    const std::string rej = prepare_fixture(c_in, c, F, tmp.path, MAX_Z, dopt, proj_note);
+    if (!rej.empty())
+      return Result::reject(rej);
+  }
   const Cfg k = decode(c, F);
   if (!balanced(F.vg_per_subset))
     return Result::reject("unbalanced subsets (OSMAPOSL::set_up calls error())");
-  if (vmax(F.y) == 0)
-    return Result::reject("no counts at all (image outside the FOV of every bin)");
   const int n = k.n_sub;
-  // triage aid (not an oracle of this property): does the projector of the case agree with the explicit matrix at all?
-  std::string proj_note;
-  {
-    std::string where;
-    const double d = projector_vs_explicit(F, F.truth, where);
-    stats().maxi("max rel diff projector (case symmetries/cache) vs explicit P", d);
-    if (d > 1e-4)
-      proj_note = cat(" [NOTE: the forward projector with symmetry switches ", c["sym"].get<int>(), " / cache ", F.cache,
-                      " differs from the symmetry-free matrix by ", d, " of the maximum at ", where, ": system-matrix matter (C03/C04)]");
-  }
 
   // ---------------- run A ----------------
   Run A;
@@ -382,9 +360,10 @@ check(const json& c)
             stats().count("MAP steps with the lower denominator bound active");
           if (r.clamp_hi)
             stats().count("MAP steps with the upper denominator bound active");
-          // tolerance: float forward/back projection vs double: observed <= ~3e-6 (EM), 1e-4 asserted
+          // tolerance: float forward/back projection vs double. Observed maxima over seeds: EM 7.4e-6, MAP 1.9e-5 (the prior
+          // gradient is float and enters a difference); asserted 1e-4 / 3e-4 of the image maximum
           const Result res
-              = compare_images(k.prior.kind ? "one-step-late MAP update" : "EM update", lam[std::size_t(j)], r.next, &r.skip, 1e-4,
+              = compare_images(k.prior.kind ? "one-step-late MAP update" : "EM update", lam[std::size_t(j)], r.next, &r.skip, k.prior.kind ? 3e-4 : 1e-4,
                                k.prior.kind ? "max rel err MAP update" : "max rel err EM update",
                                cat("(sub-iteration ", j, ", subset ", (j + k.start_subset - 1) % k.N, " of ", k.N, ")", proj_note));
           if (res.failed())
@@ -473,7 +452,7 @@ check(const json& c)
           if (!r.fl.ambiguous)
             {
               const Result res = compare_images("first update of the resumed run (initial zeros lifted as documented)", image_vec(F, *B.iter[std::size_t(kk + 1)]),
-                                                r.next, &r.skip, 1e-4, "max rel err first update after restart with lifting",
+                                                r.next, &r.skip, k.prior.kind ? 3e-4 : 1e-4, "max rel err first update after restart with lifting",
                                                 cat("(resumed at sub-iteration ", kk + 1, ", N=", k.N, ")"));
               if (res.failed())
                 return res;
@@ -521,6 +500,8 @@ check(const json& c)
     symbits += F.sym[b];
   stats().cls(symbits == 0 ? "projector symmetries off" : (symbits == 5 ? "projector symmetries all" : "projector symmetries some"));
   stats().cls(cat("iterations ", c["iters"].get<int>()));
+  stats().cls(F.reference_with_case_switches ? "reference matrix: fresh cache-free matrix with the case's symmetry switches (ray-tracing ties)"
+                                             : "reference matrix: symmetry-free cache-free");
   if (F.header_rounded)
     stats().cls("grid rounded by the Interfile header (case runs on the rounded grid)");
   return Result::pass();
@@ -541,7 +522,8 @@ gen(Src& s, int size)
       bal = { 1 };
     }
   // every balanced number of subsets; N = 1 is always balanced and gets extra weight for clauses (3)/(4)
-  c["subsets"] = s.chance(1, 4) ? 1 : s.pick(bal);
+  std::vector<int> bal_gt1(bal.begin() + (bal.size() > 1 ? 1 : 0), bal.end());
+  c["subsets"] = s.chance(1, 3) ? 1 : s.pick(bal_gt1);
   const int N = c["subsets"].get<int>();
   c["start_subset"] = s.chance(1, 3) ? int(s.range(0, 23)) : 0;
   int iters = int(s.range(1, 3));
